@@ -72,11 +72,14 @@ TABLE = {
                             'or an ancestor; the per-function driver seeds the namer with the function\'s own namespace (event mode); assumed '
                             'with a bounded stand-in: every call site passes the scope of the code it rewrites'),
     'C12': dict(level='other', bounded=[('c12_errors.py', 'one failing statement at any position/depth, callee chains <= 4, traceback and source-map oracle'),
-                                        ('rt_errors.py', 'run-time evaluation of the create_exception decision table over an exception-class zoo')],
+                                        ('rt_errors.py', 'run-time evaluation of the create_exception decision table over an exception-class zoo'),
+                                        ('rt_origin.py', 'run-time evaluation of the OriginResolver contracts: every annotated node maps to the file line holding its own text')],
                 explanation='proved (event mode): ErrorMetadataBase.create_exception and api._ErrorMetadata.create_exception are trace-equivalent '
                             'to the decision table taken from the property (same type iff no initialiser of its own or listed; KeyError subclass; '
                             'StagingError otherwise); origin information is resolved on the freshly parsed tree before any rewriting (event mode, '
-                            'GenericTranspiler.transform_function); assumed with a bounded stand-in: stack translation and the source map'),
+                            'GenericTranspiler.transform_function); the line arithmetic of the origin annotations (OriginResolver.__init__, _absolute_lineno, '
+                            '_absolute_col_offset: the first line of the parsed text -- first decorator, else the def -- is the file line inspect '
+                            'reports, for all line numbers); assumed with a bounded stand-in: stack translation and the source map'),
     'C13': dict(level='other', bounded=[('c13_zoo.py', 'callable zoo x argument shapes x options x injected pipeline failures'),
                                         ('rt_convcall.py', 'one concrete call per policy branch + disabled-then-enabled sequence (replay of the event contract)')],
                 explanation='proved (event mode, all callbacks, all argument shapes): converted_call is trace-equivalent to the documented policy '
